@@ -170,7 +170,7 @@ func descr(v ssa.Value, d int) string {
 		var args []string
 		name := ""
 		if cc.IsInvoke() {
-			name = cc.Method.Name()
+			name = engine.MethodName(cc.Method)
 			args = append(args, descr(cc.Value, d+1))
 		} else if sc := cc.StaticCallee(); sc != nil {
 			name = engine.BaseName(sc)
